@@ -43,8 +43,8 @@ RULE = ("(proof part) wait-model cases: seeded random graphs of 1-12 deferred ob
         "(exploration part) texts from six streams of tools/c08gen.py, all seeded: valid (proggen grammar-G programs, 1-3 files), wide (every mnemonic of "
         "the instruction table with every operand form its stubs admit, every directive of metacommands.py incl. aliases, all bracket styles, all literal "
         "spellings, strings with escapes, nested .repeat <= 8, 1-60 statements, 1-3 files, include depth <= 3, 9 charsets), fault (1-3 planted faults from a "
-        "catalogue of 66 kinds), mut (<= 3 token/character delete/duplicate/swap/replace/insert from a fixed alphabet incl. \"'/<>()^,;:.\\t and non-ASCII "
-        "letters and digits), cyclic (84 self-referential or size-depends-on-later-address shapes in random context, 1 in 5 mutated), deep (chains of 300 additive / 30 non-linear definitions in all orders, plain alias chains of 10-999 links in all orders (must assemble), non-additive rings of 2-10 definitions (must fail with recursive-definition), "
+        "catalogue of 68 kinds), mut (<= 3 token/character delete/duplicate/swap/replace/insert from a fixed alphabet incl. \"'/<>()^,;:.\\t and non-ASCII "
+        "letters and digits), cyclic (84 self-referential or size-depends-on-later-address shapes in random context, 1 in 5 mutated), deep (chains of 300 additive / 30 non-linear definitions in all orders, plain alias chains of 10-999 links in all orders (must assemble), non-additive rings of 2-10 definitions (must fail with recursive-definition), DAG-shaped definition chains of 20-300 definitions each using earlier-defined-later symbols twice or more (16 forms, reverse/shuffled order: ok or a reported refusal, never a crash or a watchdog hit), include graphs with cycles (self, 2-/3-cycles, with and without .once, './' and 'sub/../' spellings, chains of 3-40, diamonds), huge/boundary/negative values (1 _ 50, 2**32, 65535/65536/65537, -1 ...) in every count/size/alignment/address position incl. nested .repeat and forward-defined counts, "
         "30 address-dependent sizes, 8-deep brackets and .repeat). Each text: impl.assemble, then the real main_cli() in process under bare and graphical "
         "report formats with --lst/-o/--implicit-bin/-Wall variants (in-memory files), and for a sample the real CLI in a subprocess. "
         "non-trivial = distinct text (hash of files+charset) that produced >= 1 diagnostic or has >= 3 lines. " + BOUNDS)
@@ -77,6 +77,7 @@ def _register():
     impl.c08_noop = c08run.noop
     impl.c08_cli = c08run.cli_job
     impl.c08_wait = wait_case_job
+    impl.c08_quadratic = c08run.quadratic_witness
 
 
 def pmap(fn, arglist, chunksize=8):
@@ -422,7 +423,7 @@ def report_found(rep, found):
         r, v = min(lst, key=lambda rv: rv[0].get("size", 10 ** 9))
         items.append((sig, r, v, len(lst)))
     # 'spurious-cycle-report' rests on the input being acyclic by construction: shrinking the text would void that
-    mins = pmap("c08_min", [(r["case"], sig) if sig not in ("spurious-cycle-report", "unexpected-outcome") else (r["case"], "<keep>") for sig, r, v, n in items], chunksize=1) if items else []
+    mins = pmap("c08_min", [(r["case"], sig) if sig not in ("spurious-cycle-report", "unexpected-outcome", c08run.KNOWN_QUADRATIC) else (r["case"], "<keep>") for sig, r, v, n in items], chunksize=1) if items else []
     for (sig, r, v, n), mres in zip(items, mins):
         if isinstance(mres, dict):      # harness error inside the minimiser: keep the unminimised witness
             mcase, trials = r["case"], -1
@@ -540,6 +541,14 @@ def explore(rep, br, tier, seed):
     shown = [r for r in results if r.get("case") and not r.get("verdicts")][:3]
     for r in shown:
         rep.sample({"stream": r["stream"], "files": r["case"]["files"], "charset": r["case"]["charset"], "outcome": r["p1"], "diagnostics": r["diag_ids"], "cli_exits": r["exits"]})
+    # the known finding deferred-repeat-quadratic, made visible on every run by a cheap measurement
+    qw = pmap("c08_quadratic", [()], chunksize=1)[0]
+    rep.extra.setdefault("exploration", {})["quadratic_witness"] = qw
+    if isinstance(qw, dict) and qw.get("ratio", 0) >= 8:
+        rep.add_eval()
+        found_all.setdefault(c08run.KNOWN_QUADRATIC, []).append((
+            {"case": {"files": [["q.mac", ".repeat 1600. { .even }\n"]], "fs": {}, "charset": "bk"}, "size": 25, "stream": "witness", "tags": ["witness"]},
+            {"signature": c08run.KNOWN_QUADRATIC, "what": f"'.repeat 1600. {{ .even }}' takes {qw[1600]:.1f} s, '.repeat 400. {{ .even }}' {qw[400]:.2f} s (ratio {qw['ratio']:.1f} for 4x the count: quadratic)", "detail": qw}))
     ncli = cli_sample(rep, seed, results, 40 if tier == "quick" else 300)
     report_found(rep, found_all)
     ex = rep.extra.setdefault("exploration", {})
